@@ -42,70 +42,13 @@ theorem setVar_ok {env env' : Env} {n : Bytes} {v : Int} {r : Res}
   · cases h; intro w hw; cases hw
   · cases h; intro w hw; cases hw; rfl
 
-theorem intLit_of_stable {g g' : Bytes → Bytes} (hs : Stable g g') {n : Bytes}
-    (h : g n = [] ∨ ∃ neg k, IntLit (g n) neg k) : g' n = [] ∨ ∃ neg k, IntLit (g' n) neg k := by
-  rcases hs n with e | ⟨v, e⟩
-  · rw [e]; exact h
-  · right; rw [e]; exact ⟨_, _, fmtInt_intLit v⟩
-
-theorem LvalsOK_stable {g g' : Bytes → Bytes} (hs : Stable g g') :
-    ∀ e, LvalsOK g e → LvalsOK g' e := by
-  intro e
-  induction e with
-  | word w => intro _; trivial
-  | paren x ih => intro h; simp only [LvalsOK] at h ⊢; exact ih h
-  | unary op post x ih =>
-    intro h
-    simp only [LvalsOK] at h ⊢
-    split
-    · rename_i hinc
-      rw [if_pos hinc] at h
-      cases hw : wordOf x with
-      | none => trivial
-      | some n => rw [hw] at h; exact intLit_of_stable hs h
-    · rename_i hinc
-      rw [if_neg hinc] at h
-      exact ih h
-  | binary op x y ihx ihy =>
-    intro h
-    simp only [LvalsOK] at h ⊢
-    refine ⟨?_, ihy h.2⟩
-    split
-    · rename_i ha
-      have h1 := h.1
-      rw [if_pos ha] at h1
-      cases hw : wordOf x with
-      | none => trivial
-      | some n => rw [hw] at h1; exact intLit_of_stable hs h1
-    · rename_i ha
-      have h1 := h.1
-      rw [if_neg ha] at h1
-      exact ihx h1
-
-theorem reaches_stable {g g' : Bytes → Bytes} (hs : Stable g g') :
-    ∀ {d n neg k}, Reaches g d n neg k → ∃ d' neg' k', d' ≤ d ∧ Reaches g' d' n neg' k' := by
-  intro d n neg k h
-  induction h with
-  | unset n hn =>
-    rcases hs n with e | ⟨v, e⟩
-    · exact ⟨0, false, 0, Nat.le_refl _, Reaches.unset n (e.trans hn)⟩
-    · exact ⟨0, _, _, Nat.le_refl _, Reaches.lit n _ _ (by rw [e]; exact fmtInt_intLit v)⟩
-  | lit n neg k hl =>
-    rcases hs n with e | ⟨v, e⟩
-    · exact ⟨0, neg, k, Nat.le_refl _, Reaches.lit n neg k (by rw [e]; exact hl)⟩
-    · exact ⟨0, _, _, Nat.le_refl _, Reaches.lit n _ _ (by rw [e]; exact fmtInt_intLit v)⟩
-  | step d n neg k hv _ ih =>
-    rcases hs n with e | ⟨v, e⟩
-    · obtain ⟨d', neg', k', hle, hr⟩ := ih
-      exact ⟨d' + 1, neg', k', by omega, Reaches.step d' n neg' k' (by rw [e]; exact hv)
-        (by rw [e]; exact hr)⟩
-    · exact ⟨0, _, _, Nat.zero_le _, Reaches.lit n _ _ (by rw [e]; exact fmtInt_intLit v)⟩
+theorem valOK_fmtInt (v : Int) : ValOK (fmtInt v) := Or.inr (Or.inl ⟨_, _, fmtInt_intLit v⟩)
 
 theorem EnvOK_stable {env env' : Env} (h : EnvOK env) (hs : Stable env.get env'.get) : EnvOK env' := by
-  intro n hn
-  obtain ⟨d, neg, k, hd, hr⟩ := h n hn
-  obtain ⟨d', neg', k', hle, hr'⟩ := reaches_stable hs hr
-  exact ⟨d', neg', k', by omega, hr'⟩
+  intro n
+  rcases hs n with e | ⟨v, e⟩
+  · rw [e]; exact h n
+  · rw [e]; exact valOK_fmtInt v
 
 /-! ### words -/
 
@@ -224,57 +167,6 @@ theorem litExpr_spec {e' : Expr} {neg : Bool} {n : Nat} (hl : LitExpr e' neg n) 
 
 theorem parseText_nil : parseText [] = some none := by decide
 
-/-- Following a chain of names: the specification (recursive evaluation of the text) and the model
-    (`chase` + `atoi`) agree. -/
-theorem chain_lemma {env : Env} : ∀ {d : Nat} {n : Bytes} {neg : Bool} {k : Nat},
-    Reaches env.get d n neg k → validName n = true →
-    ∀ (fuel D hops : Nat) (r : Res) (env' : Env), d + 1 ≤ D → d + 1 ≤ hops →
-      specEval fuel D env (.word n) = (r, env') → r.inDomain →
-      k < 2 ^ 63 ∧ r = .ok (if neg then -(Int.ofNat k) else Int.ofNat k) ∧ env' = env ∧
-        atoi (chase env.get hops n) = (if neg then -(Int.ofNat k) else Int.ofNat k) := by
-  intro d n neg k hr
-  induction hr with
-  | unset n hn =>
-    intro hv fuel D hops r env' hD hh h hd
-    cases fuel with
-    | zero => rw [specEval_zero] at h; cases h; exact absurd hd (by simp [Res.inDomain])
-    | succ f =>
-      rw [specEval_word, if_pos hv, if_pos hn] at h
-      cases h
-      obtain ⟨h', rfl⟩ : ∃ h', hops = h' + 1 := ⟨hops - 1, by omega⟩
-      rw [chase_succ, if_pos hv, if_pos hn, atoi_name hv]
-      exact ⟨by decide, rfl, rfl, rfl⟩
-  | lit n neg k hl =>
-    intro hv fuel D hops r env' hD hh h hd
-    obtain ⟨e', hp, hle⟩ := parseText_intLit hl
-    have hne : env.get n ≠ [] := by
-      intro he; rw [he, parseText_nil] at hp; cases hp
-    cases fuel with
-    | zero => rw [specEval_zero] at h; cases h; exact absurd hd (by simp [Res.inDomain])
-    | succ f =>
-      obtain ⟨D', rfl⟩ : ∃ D', D = D' + 1 := ⟨D - 1, by omega⟩
-      obtain ⟨h', rfl⟩ : ∃ h', hops = h' + 1 := ⟨hops - 1, by omega⟩
-      rw [specEval_word, if_pos hv, if_neg hne, hp] at h
-      simp only [] at h
-      obtain ⟨a, b, c⟩ := litExpr_spec hle h hd
-      rw [chase_succ, if_pos hv, if_neg hne, chase_not_name _ _ _ (intLit_not_name hl),
-        atoi_intLit hl a]
-      exact ⟨a, b, c, rfl⟩
-  | step d n neg k hvn _ ih =>
-    intro hv fuel D hops r env' hD hh h hd
-    have hne : env.get n ≠ [] := by
-      intro he; rw [he] at hvn; simp [validName] at hvn
-    cases fuel with
-    | zero => rw [specEval_zero] at h; cases h; exact absurd hd (by simp [Res.inDomain])
-    | succ f =>
-      obtain ⟨D', rfl⟩ : ∃ D', D = D' + 1 := ⟨D - 1, by omega⟩
-      obtain ⟨h', rfl⟩ : ∃ h', hops = h' + 1 := ⟨hops - 1, by omega⟩
-      rw [specEval_word, if_pos hv, if_neg hne, parseText_name hvn] at h
-      simp only [] at h
-      obtain ⟨a, b, c, e⟩ := ih hvn f D' h' r env' (by omega) (by omega) h hd
-      rw [chase_succ, if_pos hv, if_neg hne]
-      exact ⟨a, b, c, e⟩
-
 /-! ### unfolding equations -/
 
 theorem specEval_paren (fuel D : Nat) (env : Env) (x : Expr) :
@@ -347,80 +239,6 @@ theorem specEval_plain (fuel D : Nat) (env : Env) (op : BinOp) (x y : Expr) :
   rw [specEval]
   simp only [h1, Bool.false_eq_true, if_false, h2, h3]
 
-theorem evalArith_incdec (env : Env) (op : UnOp) (post : Bool) (n : Bytes) :
-    (op = .inc ∨ op = .dec) → validName n = true →
-    evalArith env (.unary op post (.word n)) =
-      andThen (setVar env n (if op = .inc then wrap64 (atoi (env.get n) + 1)
-          else wrap64 (atoi (env.get n) - 1))) fun _ env' =>
-        (.ok (if post then atoi (env.get n) else
-          (if op = .inc then wrap64 (atoi (env.get n) + 1) else wrap64 (atoi (env.get n) - 1))), env') := by
-  intro hop hv
-  rw [evalArith]
-  simp only [hop, if_true, wordOf_name hv]
-
-theorem evalArith_unary_plain (env : Env) (op : UnOp) (post : Bool) (x : Expr) :
-    ¬ (op = .inc ∨ op = .dec) →
-    evalArith env (.unary op post x) =
-      andThen (evalArith env x) fun v env' =>
-        match op with
-        | .not => (.ok (oneIf (v == 0)), env')
-        | .bitNeg => (.ok (-v - 1), env')
-        | .plus => (.ok v, env')
-        | .minus => (.ok (wrap64 (-v)), env')
-        | _ => (.err .unsupUnary, env') := by
-  intro hop
-  rw [evalArith]
-  simp only [hop, if_false]
-  rfl
-
-theorem evalArith_assgn (env : Env) (n : Bytes) (y : Expr) : validName n = true →
-    evalArith env (.binary .assgn (.word n) y) =
-      andThen (evalArith env y) fun arg env' => setVar env' n arg := by
-  intro hv
-  rw [evalArith]
-  simp [isAssign, wordOf_name hv, assignOp]
-
-theorem evalArith_opassign (env : Env) (op aop : BinOp) (n : Bytes) (y : Expr) :
-    assignOp op = some aop → validName n = true →
-    evalArith env (.binary op (.word n) y) =
-      andThen (evalArith env y) fun arg env' =>
-        match binArit aop (atoi (env.get n)) arg with
-        | .ok v => setVar env' n v
-        | e => (e, env') := by
-  intro hop hv
-  rw [evalArith]
-  have : isAssign op = true := (assignOp_plain hop).1
-  simp only [this, if_true, wordOf_name hv, hop]
-  rfl
-
-theorem evalArith_tern (env : Env) (x t f : Expr) :
-    evalArith env (.binary .ternQuest x (.binary .ternColon t f)) =
-      andThen (evalArith env x) fun c env1 =>
-        if c ≠ 0 then evalArith env1 t else evalArith env1 f := by
-  rw [evalArith]
-  simp [isAssign, assignOp, evalTernBranch]
-
-theorem evalArith_logic (env : Env) (op : BinOp) (x y : Expr) :
-    (op = .andL ∨ op = .orL) →
-    evalArith env (.binary op x y) =
-      andThen (evalArith env x) fun l env1 =>
-        if op = .andL ∧ l = 0 then (.ok 0, env1)
-        else if op = .orL ∧ l ≠ 0 then (.ok 1, env1)
-        else andThen (evalArith env1 y) fun r env2 => (.ok (oneIf (r != 0)), env2) := by
-  intro hop
-  rw [evalArith]
-  rcases hop with rfl | rfl <;> simp [isAssign, assignOp]
-
-theorem evalArith_plain (env : Env) (op : BinOp) (x y : Expr) :
-    plainBin op = true →
-    evalArith env (.binary op x y) =
-      andThen (evalArith env x) fun l env1 =>
-        andThen (evalArith env1 y) fun r env2 => (binArit op l r, env2) := by
-  intro hop
-  obtain ⟨h1, h2, h3⟩ := plainBin_facts hop
-  rw [evalArith]
-  simp only [h1, Bool.false_eq_true, if_false, h2, h3]
-
 /-! ### the main induction -/
 
 /-- what the induction establishes for one evaluation -/
@@ -428,8 +246,8 @@ def Good (g : Bytes → Bytes) (pm : Res × Env) (r : Res) (env' : Env) : Prop :
   pm = (r, env') ∧ Stable g env'.get ∧ (∀ w, r = .ok w → inI64 w = true)
 
 theorem step {g : Bytes → Bytes} {ps pm : Res × Env} {fs fm : Int → Env → Res × Env} {r : Res}
-    {env' : Env} (hs : andThen ps fs = (r, env')) (hd : r.inDomain)
-    (hsub : ∀ r1 e1, ps = (r1, e1) → r1.inDomain → Good g pm r1 e1)
+    {env' : Env} (hs : andThen ps fs = (r, env')) (hd : r.good)
+    (hsub : ∀ r1 e1, ps = (r1, e1) → r1.good → Good g pm r1 e1)
     (hcont : ∀ v e1, ps = (.ok v, e1) → inI64 v = true → Stable g e1.get → fs v e1 = (r, env') →
       Good g (fm v e1) r env') :
     Good g (andThen pm fm) r env' := by
@@ -473,19 +291,6 @@ theorem isNameWord_elim' {x : Expr} (h : isNameWord x = true) : ∃ n, x = .word
   exact ⟨_, rfl, h⟩
 
 /-- reading an `op=`/`++`/`--` target: specification and `atoi` agree -/
-theorem lval_read {env : Env} {n : Bytes} (hv : validName n = true)
-    (hl : env.get n = [] ∨ ∃ neg k, IntLit (env.get n) neg k)
-    {fuel D : Nat} (hD : 1 ≤ D) {r1 : Res} {e1 : Env}
-    (h : specEval fuel D env (.word n) = (r1, e1)) (hd : r1.inDomain) :
-    r1 = .ok (atoi (env.get n)) ∧ e1 = env ∧ inI64 (atoi (env.get n)) = true := by
-  rcases hl with he | ⟨neg, k, hl⟩
-  · obtain ⟨a, b, c, _⟩ := chain_lemma (Reaches.unset n he) hv fuel D 1 r1 e1 (by omega) (by omega) h hd
-    rw [he, atoi_nil]
-    exact ⟨by simpa using b, c, by decide⟩
-  · obtain ⟨a, b, c, _⟩ := chain_lemma (Reaches.lit n neg k hl) hv fuel D 1 r1 e1 (by omega) (by omega) h hd
-    rw [atoi_intLit hl a]
-    exact ⟨b, c, inI64_sval a⟩
-
 theorem specBin_plain_ne {op : BinOp} (hop : plainBin op = true) (x y : Int) :
     specBin op x y ≠ .err .syntaxErr ∧ specBin op x y ≠ .panic := by
   cases op <;> simp [plainBin] at hop <;> simp only [specBin, chk, specPow] <;>
@@ -510,108 +315,400 @@ theorem good_binArit {g : Bytes → Bytes} {op : BinOp} {l rr : Int} {e2 env' : 
 theorem pair_eq {r1 r : Res} {e1 env' : Env} (h : (r1, e1) = (r, env')) : r1 = r ∧ e1 = env' := by
   cases h; exact ⟨rfl, rfl⟩
 
-theorem eval_main (D : Nat) (hD : 98 ≤ D) : ∀ (fuel : Nat) (env : Env) (e : Expr) (r : Res) (env' : Env),
-    WF e = true → EnvOK env → LitsOK e → LvalsOK env.get e →
-    specEval fuel D env e = (r, env') → r.inDomain →
-    Good env.get (evalArith env e) r env'
-  | 0, env, e, r, env', _, _, _, _, h, hd => by
-    rw [specEval_zero] at h; cases h; exact absurd hd (by simp [Res.inDomain])
-  | fuel + 1, env, e, r, env', hwf, henv, hlit, hlv, h, hd => by
-    have IH := eval_main D hD fuel
-    have IH' : ∀ (e1 : Env) (x : Expr) (r1 : Res) (e2 : Env), Stable env.get e1.get →
-        WF x = true → LitsOK x → LvalsOK env.get x → specEval fuel D e1 x = (r1, e2) →
-        r1.inDomain → Good env.get (evalArith e1 x) r1 e2 := by
-      intro e1 x r1 e2 hst hw hl hv hp hd1
-      obtain ⟨a, b, c⟩ := IH e1 x r1 e2 hw (EnvOK_stable henv hst) hl (LvalsOK_stable hst x hv) hp hd1
-      exact ⟨a, hst.trans b, c⟩
+/-! ### number-like strings, value texts -/
+
+theorem numberLike_of_trim {v t : Bytes} (hv : trimSpace v = t)
+    (hcase : (∃ r, t = 43 :: r ∧ ∀ b ∈ r, isWordB b = true) ∨ (∃ r, t = 45 :: r ∧ ∀ b ∈ r, isWordB b = true) ∨
+      ((∀ r, t ≠ 43 :: r) ∧ (∀ r, t ≠ 45 :: r) ∧ ∀ b ∈ t, isWordB b = true)) :
+    numberLike v = true := by
+  unfold numberLike
+  rw [hv]
+  simp only []
+  have conv : ∀ l : Bytes, (∀ b ∈ l, isWordB b = true) →
+      (l.all fun c => isNameChar c || c == 64 || c == 35) = true := by
+    intro l hl
+    rw [List.all_eq_true]
+    intro b hb
+    have := hl b hb
+    unfold isWordB at this
+    exact this
+  rcases hcase with ⟨r, rfl, hr⟩ | ⟨r, rfl, hr⟩ | ⟨h1, h2, hr⟩
+  · exact conv r hr
+  · exact conv r hr
+  · split
+    · exact absurd rfl (h1 _)
+    · exact absurd rfl (h2 _)
+    · exact conv t hr
+
+theorem numberLike_name {n : Bytes} (h : validName n = true) : numberLike n = true := by
+  cases n with
+  | nil => simp [validName] at h
+  | cons c rest =>
+    simp only [validName, Bool.and_eq_true, List.all_eq_true] at h
+    obtain ⟨hc, hrest⟩ := h
+    obtain ⟨h43, h45, _, _⟩ := nameStart_facts hc
+    have hchar : ∀ b ∈ c :: rest, isNameChar b = true := by
+      intro b hb
+      rcases List.mem_cons.1 hb with rfl | hb
+      · simp [isNameChar, hc]
+      · exact hrest b hb
+    have ht : trimSpace (c :: rest) = c :: rest := by
+      have := trimSpace_mid (pre := []) (post := []) (mid := c :: rest) (by simp) (by simp) (by simp)
+        (fun b hb => (nameChar_facts (hchar b hb)).2)
+      simpa using this
+    refine numberLike_of_trim ht (Or.inr (Or.inr ⟨?_, ?_, fun b hb => (nameChar_word (hchar b hb)).1⟩))
+    · intro r he; simp at he; exact h43 he.1
+    · intro r he; simp at he; exact h45 he.1
+
+theorem numberLike_intLit {v : Bytes} {neg : Bool} {k : Nat} (h : IntLit v neg k) :
+    numberLike v = true := by
+  cases h with
+  | pos pre lit post n hpre hpost hl =>
+    obtain ⟨c, rest, rfl, h1, h2⟩ := specNumber_starts_digit hl
+    obtain ⟨_, h43, h45⟩ := digit_not_start h1 h2
+    have ht := trimSpace_mid (isBlanks_space hpre) (isBlanks_space hpost) (by simp)
+      (lit_no_space hl)
+    refine numberLike_of_trim ht (Or.inr (Or.inr ⟨?_, ?_, specNumber_wordChars hl⟩))
+    · intro r he; simp at he; exact h43 he.1
+    · intro r he; simp at he; exact h45 he.1
+  | plus pre lit post n hpre hpost hl =>
+    have e : pre ++ 43 :: lit ++ post = pre ++ (43 :: lit) ++ post := by simp
+    have hmid : ∀ b ∈ (43 : UInt8) :: lit, isSpaceB b = false := by
+      intro b hb
+      rcases List.mem_cons.1 hb with rfl | hb
+      · decide
+      · exact lit_no_space hl b hb
+    have ht := trimSpace_mid (isBlanks_space hpre) (isBlanks_space hpost) (by simp) hmid
+    rw [← e] at ht
+    exact numberLike_of_trim ht (Or.inl ⟨lit, rfl, specNumber_wordChars hl⟩)
+  | minus pre lit post n hpre hpost hl =>
+    have e : pre ++ 45 :: lit ++ post = pre ++ (45 :: lit) ++ post := by simp
+    have hmid : ∀ b ∈ (45 : UInt8) :: lit, isSpaceB b = false := by
+      intro b hb
+      rcases List.mem_cons.1 hb with rfl | hb
+      · decide
+      · exact lit_no_space hl b hb
+    have ht := trimSpace_mid (isBlanks_space hpre) (isBlanks_space hpost) (by simp) hmid
+    rw [← e] at ht
+    exact numberLike_of_trim ht (Or.inr (Or.inl ⟨lit, rfl, specNumber_wordChars hl⟩))
+
+theorem exprText_not_name {v : Bytes} (h : ExprText v) : validName v = false := by
+  cases hv : validName v with
+  | false => rfl
+  | true => have h1 := h.1; rw [numberLike_name hv] at h1; cases h1
+
+theorem exprText_ne_nil {v : Bytes} (h : ExprText v) : v ≠ [] := by
+  intro he
+  obtain ⟨_, e', hp, _⟩ := h
+  rw [he, parseText_nil] at hp
+  cases hp
+
+theorem parseValue_of_parseText {v : Bytes} {e' : Expr} (h : parseText v = some (some e')) :
+    parseValue v = .expr e' := by
+  unfold parseText at h
+  unfold parseValue
+  cases hl : lexArith (v.length + 1) v with
+  | none => rw [hl] at h; cases h
+  | some toks =>
+    rw [hl] at h
+    cases toks with
+    | nil => cases h
+    | cons t ts =>
+      simp only [] at h ⊢
+      unfold parseArith at h
+      cases hp : parseLevel (20 * (t :: ts).length + 20) lvComma (t :: ts) with
+      | none => rw [hp] at h; cases h
+      | some pr =>
+        obtain ⟨oe, rest⟩ := pr
+        rw [hp] at h
+        cases oe with
+        | none => cases h
+        | some e2 =>
+          cases rest with
+          | nil => simp only [Option.map] at h; cases h; rfl
+          | cons _ _ => cases h
+
+/-- the `deeper` parameter of `evalAt d` -/
+def deeperOf : Nat → Env → Bytes → Res × Env
+  | 0 => fun env _ => (.err .recursion, env)
+  | d + 1 => fun env str =>
+    match parseValue str with
+    | .syntaxErr => (.err .syntaxErr, env)
+    | .empty => (.ok 0, env)
+    | .expr e' => evalAt d env e'
+
+theorem evalAt_eq (d : Nat) : evalAt d = evalWith (deeperOf d) := by
+  cases d <;> rfl
+
+/-- what the word rule does with the chased string -/
+def finish (d : Nat) (env : Env) (str : Bytes) : Res × Env :=
+  if numberLike str then (.ok (atoi str), env) else deeperOf d env str
+
+theorem chase_end (get : Bytes → Bytes) : ∀ (hops : Nat) (n : Bytes), validName n = true →
+    get n = [] → chase get hops n = n
+  | 0, n, _, _ => rfl
+  | h + 1, n, hv, he => by rw [chase_succ, if_pos hv, if_pos he]
+
+theorem evalWord_name (d : Nat) (env : Env) (w : Bytes) (hv : validName w = true) :
+    evalWord (deeperOf d) env w = finish d env (chase env.get 99 w) := by
+  unfold evalWord finish
+  simp only [hv, Bool.true_and, maxNameRefDepth]
+  show (if ((env.get w != []) && !numberLike (chase env.get 99 w)) = true then _ else _) = _
+  by_cases he : env.get w = []
+  · rw [chase_end _ _ _ hv he, numberLike_name hv]
+    simp [he]
+  · have : (env.get w != []) = true := by simpa using he
+    simp only [this, Bool.true_and]
+    by_cases hn : numberLike (chase env.get 99 w) = true
+    · simp [hn]
+    · simp [hn]
+
+theorem evalWord_lit (deeper : Env → Bytes → Res × Env) (env : Env) (w : Bytes)
+    (hv : validName w = false) : evalWord deeper env w = (.ok (atoi w), env) := by
+  unfold evalWord
+  simp [hv, chase_not_name _ _ _ hv]
+
+/-! ### unfolding equations of the model -/
+
+theorem evalWith_word (dp : Env → Bytes → Res × Env) (env : Env) (w : Bytes) :
+    evalWith dp env (.word w) = evalWord dp env w := by rw [evalWith]
+
+theorem evalWith_incdec (dp : Env → Bytes → Res × Env) (env : Env) (op : UnOp) (post : Bool)
+    (n : Bytes) : (op = .inc ∨ op = .dec) → validName n = true →
+    evalWith dp env (.unary op post (.word n)) =
+      andThen (evalWith dp env (.word n)) fun old env1 =>
+        andThen (setVar env1 n (if op = .inc then wrap64 (old + 1) else wrap64 (old - 1)))
+          fun _ env2 =>
+            (.ok (if post then old else
+              (if op = .inc then wrap64 (old + 1) else wrap64 (old - 1))), env2) := by
+  intro hop hv
+  rw [evalWith_word, evalWith]
+  simp only [hop, if_true, wordOf_name hv]
+
+theorem evalWith_unary_plain (dp : Env → Bytes → Res × Env) (env : Env) (op : UnOp) (post : Bool)
+    (x : Expr) : ¬ (op = .inc ∨ op = .dec) →
+    evalWith dp env (.unary op post x) =
+      andThen (evalWith dp env x) fun v env' =>
+        match op with
+        | .not => (.ok (oneIf (v == 0)), env')
+        | .bitNeg => (.ok (-v - 1), env')
+        | .plus => (.ok v, env')
+        | .minus => (.ok (wrap64 (-v)), env')
+        | _ => (.err .unsupUnary, env') := by
+  intro hop
+  rw [evalWith]
+  simp only [hop, if_false]
+  rfl
+
+theorem evalWith_assgn (dp : Env → Bytes → Res × Env) (env : Env) (n : Bytes) (y : Expr) :
+    validName n = true →
+    evalWith dp env (.binary .assgn (.word n) y) =
+      andThen (evalWith dp env y) fun arg env' => setVar env' n arg := by
+  intro hv
+  rw [evalWith]
+  simp [isAssign, wordOf_name hv, assignOp]
+
+theorem evalWith_opassign (dp : Env → Bytes → Res × Env) (env : Env) (op aop : BinOp) (n : Bytes)
+    (y : Expr) : assignOp op = some aop → validName n = true →
+    evalWith dp env (.binary op (.word n) y) =
+      andThen (evalWith dp env (.word n)) fun val env1 =>
+        andThen (evalWith dp env1 y) fun arg env' =>
+          match binArit aop val arg with
+          | .ok v => setVar env' n v
+          | e => (e, env') := by
+  intro hop hv
+  rw [evalWith_word, evalWith]
+  have : isAssign op = true := (assignOp_plain hop).1
+  simp only [this, if_true, wordOf_name hv, hop]
+  rfl
+
+theorem evalWith_tern (dp : Env → Bytes → Res × Env) (env : Env) (x t f : Expr) :
+    evalWith dp env (.binary .ternQuest x (.binary .ternColon t f)) =
+      andThen (evalWith dp env x) fun c env1 =>
+        if c ≠ 0 then evalWith dp env1 t else evalWith dp env1 f := by
+  rw [evalWith]
+  simp [isAssign, assignOp, evalTernBranch]
+
+theorem evalWith_logic (dp : Env → Bytes → Res × Env) (env : Env) (op : BinOp) (x y : Expr) :
+    (op = .andL ∨ op = .orL) →
+    evalWith dp env (.binary op x y) =
+      andThen (evalWith dp env x) fun l env1 =>
+        if op = .andL ∧ l = 0 then (.ok 0, env1)
+        else if op = .orL ∧ l ≠ 0 then (.ok 1, env1)
+        else andThen (evalWith dp env1 y) fun r env2 => (.ok (oneIf (r != 0)), env2) := by
+  intro hop
+  rw [evalWith]
+  rcases hop with rfl | rfl <;> simp [isAssign, assignOp]
+
+theorem evalWith_plain (dp : Env → Bytes → Res × Env) (env : Env) (op : BinOp) (x y : Expr) :
+    plainBin op = true →
+    evalWith dp env (.binary op x y) =
+      andThen (evalWith dp env x) fun l env1 =>
+        andThen (evalWith dp env1 y) fun r env2 => (binArit op l r, env2) := by
+  intro hop
+  obtain ⟨h1, h2, h3⟩ := plainBin_facts hop
+  rw [evalWith]
+  simp only [h1, Bool.false_eq_true, if_false, h2, h3]
+
+theorem good_inDomain {r : Res} (h : r.good) : r.inDomain := by
+  cases r with
+  | ok v => trivial
+  | panic => trivial
+  | err e => cases e <;> first | trivial | exact h
+
+/-! ### the main induction -/
+
+theorem good_ok (v : Int) : (Res.ok v).good := trivial
+
+theorem eval_main : ∀ (fuel : Nat),
+    (∀ (d D : Nat) (env : Env) (e : Expr) (r : Res) (env' : Env), D ≤ d → D ≤ 99 →
+      WF e = true → EnvOK env → LitsOK e → specEval fuel D env e = (r, env') → r.good →
+      Good env.get (evalAt d env e) r env') ∧
+    (∀ (d D hops : Nat) (env : Env) (n : Bytes) (r : Res) (env' : Env), D ≤ d → D ≤ 99 →
+      D ≤ hops → validName n = true → EnvOK env → specEval fuel D env (.word n) = (r, env') →
+      r.good → Good env.get (finish d env (chase env.get hops n)) r env')
+  | 0 => by
+    constructor
+    · intro d D env e r env' _ _ _ _ _ h hd
+      rw [specEval_zero] at h; cases h; exact absurd hd (by simp [Res.good])
+    · intro d D hops env n r env' _ _ _ _ _ h hd
+      rw [specEval_zero] at h; cases h; exact absurd hd (by simp [Res.good])
+  | fuel + 1 => by
+    obtain ⟨IH1, IH2⟩ := eval_main fuel
+    -- part 2: following names
+    have P2 : ∀ (d D hops : Nat) (env : Env) (n : Bytes) (r : Res) (env' : Env), D ≤ d → D ≤ 99 →
+        D ≤ hops → validName n = true → EnvOK env →
+        specEval (fuel + 1) D env (.word n) = (r, env') → r.good →
+        Good env.get (finish d env (chase env.get hops n)) r env' := by
+      intro d D hops env n r env' hDd hD99 hDh hv henv h hd
+      rw [specEval_word, if_pos hv] at h
+      by_cases he : env.get n = []
+      · rw [if_pos he] at h
+        obtain ⟨a, b⟩ := pair_eq h
+        subst a b
+        rw [chase_end _ _ _ hv he]
+        unfold finish
+        rw [numberLike_name hv, if_pos rfl, atoi_name hv]
+        exact ⟨rfl, Stable.refl _, fun w hw => by cases hw; decide⟩
+      · rw [if_neg he] at h
+        rcases henv n with hnil | ⟨neg, k, hl⟩ | hvn | hex
+        · exact absurd hnil he
+        · obtain ⟨e', hp, hle⟩ := parseText_intLit hl
+          rw [hp] at h
+          simp only [] at h
+          cases D with
+          | zero => obtain ⟨a, _⟩ := pair_eq h; subst a; exact absurd hd (by simp [Res.good])
+          | succ D' =>
+            simp only [] at h
+            obtain ⟨a, b, c⟩ := litExpr_spec hle h (good_inDomain hd)
+            obtain ⟨h', rfl⟩ : ∃ h', hops = h' + 1 := ⟨hops - 1, by omega⟩
+            rw [chase_succ, if_pos hv, if_neg he, chase_not_name _ _ _ (intLit_not_name hl)]
+            unfold finish
+            rw [numberLike_intLit hl, if_pos rfl, atoi_intLit hl a]
+            subst b c
+            exact ⟨rfl, Stable.refl _, fun w hw => by cases hw; exact inI64_sval a⟩
+        · rw [parseText_name hvn] at h
+          simp only [] at h
+          cases D with
+          | zero => obtain ⟨a, _⟩ := pair_eq h; subst a; exact absurd hd (by simp [Res.good])
+          | succ D' =>
+            simp only [] at h
+            obtain ⟨h', rfl⟩ : ∃ h', hops = h' + 1 := ⟨hops - 1, by omega⟩
+            rw [chase_succ, if_pos hv, if_neg he]
+            exact IH2 d D' h' env (env.get n) r env' (by omega) (by omega) (by omega) hvn henv h hd
+        · obtain ⟨hnl, e', hp, hwf', hlit'⟩ := hex
+          rw [hp] at h
+          simp only [] at h
+          cases D with
+          | zero => obtain ⟨a, _⟩ := pair_eq h; subst a; exact absurd hd (by simp [Res.good])
+          | succ D' =>
+            simp only [] at h
+            obtain ⟨h', rfl⟩ : ∃ h', hops = h' + 1 := ⟨hops - 1, by omega⟩
+            obtain ⟨d', rfl⟩ : ∃ d', d = d' + 1 := ⟨d - 1, by omega⟩
+            have hnn := exprText_not_name ⟨hnl, e', hp, hwf', hlit'⟩
+            rw [chase_succ, if_pos hv, if_neg he, chase_not_name _ _ _ hnn]
+            unfold finish
+            rw [hnl]
+            simp only [Bool.false_eq_true, if_false, deeperOf, parseValue_of_parseText hp]
+            exact IH1 d' D' env e' r env' (by omega) (by omega) hwf' henv hlit' h hd
+    refine ⟨?_, P2⟩
+    intro d D env e r env' hDd hD99 hwf henv hlit h hd
+    rw [evalAt_eq]
+    have IH : ∀ (e1 : Env) (x : Expr) (r1 : Res) (e2 : Env), Stable env.get e1.get →
+        WF x = true → LitsOK x → specEval fuel D e1 x = (r1, e2) → r1.good →
+        Good env.get (evalWith (deeperOf d) e1 x) r1 e2 := by
+      intro e1 x r1 e2 hst hw hl hp hd1
+      have := IH1 d D e1 x r1 e2 hDd hD99 hw (EnvOK_stable henv hst) hl hp hd1
+      rw [evalAt_eq] at this
+      exact ⟨this.1, hst.trans this.2.1, this.2.2⟩
+    have hrefl := Stable.refl env.get
     cases e with
     | word w =>
+      rw [evalWith_word]
       by_cases hv : validName w = true
-      · obtain ⟨d, neg, k, hd97, hr⟩ := henv w hv
-        obtain ⟨a, b, c, e⟩ := chain_lemma hr hv (fuel + 1) D 99 r env' (by omega) (by omega) h hd
-        rw [evalArith_word, e]
-        subst b c
-        exact ⟨rfl, Stable.refl _, fun w hw => by cases hw; exact inI64_sval a⟩
+      · rw [evalWord_name d env w hv]
+        exact P2 d D 99 env w r env' hDd hD99 hD99 hv henv h hd
       · rcases hlit with hl | ⟨n, hn⟩
         · exact absurd hl hv
-        · obtain ⟨a, b, c⟩ := specEval_lit hn h hd
-          rw [evalArith_word, chase_not_name _ _ _ (by simpa using hv), atoi_lit hn a]
+        · obtain ⟨a, b, c⟩ := specEval_lit hn h (good_inDomain hd)
+          rw [evalWord_lit _ _ _ (by simpa using hv), atoi_lit hn a]
           subst b c
           refine ⟨rfl, Stable.refl _, fun w hw => ?_⟩
           cases hw
           exact inI64_sval (neg := false) a
     | paren x =>
       rw [specEval_paren] at h
-      rw [evalArith]
-      exact IH env x r env' (by simpa [WF] using hwf) henv hlit hlv h hd
+      rw [evalWith]
+      exact IH env x r env' hrefl (by simpa [WF] using hwf) hlit h hd
     | unary op post x =>
       by_cases hinc : op = .inc ∨ op = .dec
       · simp only [WF, hinc, if_true] at hwf
         obtain ⟨n, rfl, hvn⟩ := isNameWord_elim' hwf
-        simp only [LvalsOK, hinc, if_true, wordOf_name hvn] at hlv
         rw [specEval_incdec _ _ _ _ _ _ hinc hvn] at h
-        rw [evalArith_incdec _ _ _ _ hinc hvn]
-        cases hps : specEval fuel D env (.word n) with
-        | mk r1 e1 =>
-          rw [hps] at h
-          cases r1 with
-          | ok old =>
-            obtain ⟨b, c, i⟩ := lval_read hvn hlv (by omega) hps trivial
-            cases b
-            subst c
-            simp only [andThen_ok] at h
-            have hw : (if op = UnOp.inc then wrap64 (atoi (e1.get n) + 1)
-                else wrap64 (atoi (e1.get n) - 1)) =
-                wrap64 (if op = UnOp.inc then atoi (e1.get n) + 1 else atoi (e1.get n) - 1) := by
-              split <;> rfl
-            rw [hw]
-            generalize (if op = UnOp.inc then atoi (e1.get n) + 1 else atoi (e1.get n) - 1) = val at h ⊢
-            by_cases hval : inI64 val = true
-            · rw [if_pos hval] at h
-              rw [wrap64_eq hval]
-              obtain ⟨r2, e2, hsv⟩ : ∃ r2 e2, setVar e1 n val = (r2, e2) := ⟨_, _, rfl⟩
-              · have hst := setVar_stable hsv
-                rw [hsv] at h ⊢
-                cases r2 with
-                | ok v2 =>
-                  simp only [andThen_ok] at h ⊢
-                  obtain ⟨a, b⟩ := pair_eq h
-                  subst a b
-                  refine ⟨rfl, hst, fun w hw2 => ?_⟩
-                  cases hw2
-                  cases post
-                  · simpa using hval
-                  · simpa using i
-                | err er =>
-                  simp only [andThen_err] at h ⊢
-                  obtain ⟨a, b⟩ := pair_eq h
-                  subst a b
-                  exact ⟨rfl, hst, fun w hw2 => by cases hw2⟩
-                | panic =>
-                  simp only [andThen_panic] at h ⊢
-                  obtain ⟨a, b⟩ := pair_eq h
-                  subst a b
-                  exact ⟨rfl, hst, fun w hw2 => by cases hw2⟩
-            · rw [if_neg hval] at h
-              have := (pair_eq h).1
-              rw [← this] at hd
-              exact absurd hd (by simp [Res.inDomain])
+        rw [evalWith_incdec _ _ _ _ _ hinc hvn]
+        refine step h hd (fun r1 e1 hp hd1 => IH env (.word n) r1 e1 hrefl rfl (Or.inl hvn) hp hd1) ?_
+        intro old e1 hp hold hst hf
+        have hw : (if op = UnOp.inc then wrap64 (old + 1) else wrap64 (old - 1)) =
+            wrap64 (if op = UnOp.inc then old + 1 else old - 1) := by
+          split <;> rfl
+        rw [hw]
+        generalize (if op = UnOp.inc then old + 1 else old - 1) = val at hf ⊢
+        by_cases hval : inI64 val = true
+        · rw [if_pos hval] at hf
+          rw [wrap64_eq hval]
+          obtain ⟨r2, e2, hsv⟩ : ∃ r2 e2, setVar e1 n val = (r2, e2) := ⟨_, _, rfl⟩
+          have hst2 := hst.trans (setVar_stable hsv)
+          rw [hsv] at hf ⊢
+          cases r2 with
+          | ok v2 =>
+            simp only [andThen_ok] at hf ⊢
+            obtain ⟨a, b⟩ := pair_eq hf
+            subst a b
+            refine ⟨rfl, hst2, fun w hw2 => ?_⟩
+            cases hw2
+            cases post
+            · simpa using hval
+            · simpa using hold
           | err er =>
-            simp only [andThen_err] at h
-            have := (pair_eq h).1
-            rw [← this] at hd
-            obtain ⟨b, _, _⟩ := lval_read hvn hlv (by omega) hps hd
-            cases b
+            simp only [andThen_err] at hf ⊢
+            obtain ⟨a, b⟩ := pair_eq hf
+            subst a b
+            exact ⟨rfl, hst2, fun w hw2 => by cases hw2⟩
           | panic =>
-            obtain ⟨b, _, _⟩ := lval_read hvn hlv (by omega) hps trivial
-            cases b
+            simp only [andThen_panic] at hf ⊢
+            obtain ⟨a, b⟩ := pair_eq hf
+            subst a b
+            exact ⟨rfl, hst2, fun w hw2 => by cases hw2⟩
+        · rw [if_neg hval] at hf
+          have := (pair_eq hf).1
+          rw [← this] at hd
+          exact absurd hd (by simp [Res.good])
       · simp only [WF, hinc, if_false, Bool.and_eq_true, Bool.not_eq_true'] at hwf
         obtain ⟨hpost, hwx⟩ := hwf
         subst hpost
-        simp only [LvalsOK, hinc, if_false] at hlv
         rw [specEval_unary_plain _ _ _ _ _ hinc] at h
-        rw [evalArith_unary_plain _ _ _ _ hinc]
-        refine step h hd (fun r1 e1 hp hd1 => IH env x r1 e1 hwx henv hlit hlv hp hd1) ?_
+        rw [evalWith_unary_plain _ _ _ _ _ hinc]
+        refine step h hd (fun r1 e1 hp hd1 => IH env x r1 e1 hrefl hwx hlit hp hd1) ?_
         intro v e1 hp hv hst hf
         cases op with
         | inc => exact absurd (Or.inl rfl) hinc
@@ -638,14 +735,13 @@ theorem eval_main (D : Nat) (hD : 98 ≤ D) : ∀ (fuel : Nat) (env : Env) (e : 
           simp only [] at hf ⊢
           obtain ⟨a, b⟩ := pair_eq hf
           subst b
-          obtain ⟨hi, hr⟩ := chk_ok a hd
+          obtain ⟨hi, hr⟩ := chk_ok a (good_inDomain hd)
           subst hr
           rw [wrap64_eq hi]
           exact ⟨rfl, hst, fun w hw => by cases hw; exact hi⟩
     | binary op x y =>
       have hlitx : LitsOK x := hlit.1
       have hlity : LitsOK y := hlit.2
-      have hlvy : LvalsOK env.get y := hlv.2
       by_cases hass : op = .assgn ∨ (assignOp op).isSome = true
       · simp only [WF, hass, if_true, Bool.and_eq_true] at hwf
         obtain ⟨n, rfl, hvn⟩ := isNameWord_elim' hwf.1
@@ -657,57 +753,35 @@ theorem eval_main (D : Nat) (hD : 98 ≤ D) : ∀ (fuel : Nat) (env : Env) (e : 
             · rw [hop] at h1; cases h1
           subst hopa
           rw [specEval_assgn _ _ _ _ _ hvn] at h
-          rw [evalArith_assgn _ _ _ hvn]
-          refine step h hd (fun r1 e1 hp hd1 => IH env y r1 e1 hwf.2 henv hlity hlvy hp hd1) ?_
+          rw [evalWith_assgn _ _ _ _ hvn]
+          refine step h hd (fun r1 e1 hp hd1 => IH env y r1 e1 hrefl hwf.2 hlity hp hd1) ?_
           intro v e1 hp hv hst hf
           exact good_setVar hst hv hf
         | some aop =>
-          have hlvn : env.get n = [] ∨ ∃ neg k, IntLit (env.get n) neg k := by
-            have := hlv.1
-            simp only [hop, Option.isSome_some, if_true, wordOf_name hvn] at this
-            exact this
           have hpl := assignOp_plainBin hop
           rw [specEval_opassign _ _ _ _ _ _ _ hop hvn] at h
-          rw [evalArith_opassign _ _ _ _ _ hop hvn]
-          obtain ⟨r1, e1, hps⟩ : ∃ r1 e1, specEval fuel D env (.word n) = (r1, e1) := ⟨_, _, rfl⟩
-          rw [hps] at h
-          cases r1 with
-          | ok cur =>
-            obtain ⟨b, c, i⟩ := lval_read hvn hlvn (by omega) hps trivial
-            cases b
-            subst c
-            simp only [andThen_ok] at h
-            refine step h hd (fun r1 e2 hp hd1 => IH e1 y r1 e2 hwf.2 henv hlity hlvy hp hd1) ?_
-            intro arg e2 hp harg hst hf
-            obtain ⟨sb, hsb⟩ : ∃ sb, specBin aop (atoi (e1.get n)) arg = sb := ⟨_, rfl⟩
-            rw [hsb] at hf
-            cases sb with
-            | ok v =>
-              simp only [] at hf
-              rw [binArit_eq_spec harg hsb trivial (by simp)]
-              exact good_setVar hst (specBin_inI64 i harg hsb) hf
-            | err er =>
-              simp only [] at hf
-              obtain ⟨a, b⟩ := pair_eq hf
-              subst a b
-              rw [binArit_eq_spec harg hsb hd (by rw [← hsb]; exact (specBin_plain_ne hpl _ _).1)]
-              exact ⟨rfl, hst, fun w hw => by cases hw⟩
-            | panic => exact absurd hsb (specBin_plain_ne hpl _ _).2
+          rw [evalWith_opassign _ _ _ _ _ _ hop hvn]
+          refine step h hd
+            (fun r1 e1 hp hd1 => IH env (.word n) r1 e1 hrefl rfl (Or.inl hvn) hp hd1) ?_
+          intro cur e1 hp hcur hst hf
+          refine step hf hd (fun r1 e2 hp2 hd1 => IH e1 y r1 e2 hst hwf.2 hlity hp2 hd1) ?_
+          intro arg e2 hp2 harg hst2 hf2
+          obtain ⟨sb, hsb⟩ : ∃ sb, specBin aop cur arg = sb := ⟨_, rfl⟩
+          rw [hsb] at hf2
+          cases sb with
+          | ok v =>
+            simp only [] at hf2
+            rw [binArit_eq_spec harg hsb trivial (by simp)]
+            exact good_setVar hst2 (specBin_inI64 hcur harg hsb) hf2
           | err er =>
-            simp only [andThen_err] at h
-            have := (pair_eq h).1
-            rw [← this] at hd
-            obtain ⟨b, _, _⟩ := lval_read hvn hlvn (by omega) hps hd
-            cases b
-          | panic =>
-            obtain ⟨b, _, _⟩ := lval_read hvn hlvn (by omega) hps trivial
-            cases b
-      · have hlvx : LvalsOK env.get x := by
-          have := hlv.1
-          have hn : ¬ ((assignOp op).isSome = true) := fun h1 => hass (Or.inr h1)
-          simp only [hn, if_false] at this
-          exact this
-        simp only [WF, hass, if_false] at hwf
+            simp only [] at hf2
+            obtain ⟨a, b⟩ := pair_eq hf2
+            subst a b
+            rw [binArit_eq_spec harg hsb (good_inDomain hd)
+              (by rw [← hsb]; exact (specBin_plain_ne hpl _ _).1)]
+            exact ⟨rfl, hst2, fun w hw => by cases hw⟩
+          | panic => exact absurd hsb (specBin_plain_ne hpl _ _).2
+      · simp only [WF, hass, if_false] at hwf
         by_cases ht : op = .ternQuest
         · subst ht
           simp only [if_true, Bool.and_eq_true] at hwf
@@ -720,23 +794,21 @@ theorem eval_main (D : Nat) (hD : 98 ≤ D) : ∀ (fuel : Nat) (env : Env) (e : 
             simp only [WFColon, Bool.and_eq_true, beq_iff_eq] at hwc
             obtain ⟨⟨hop2, hwt⟩, hwff⟩ := hwc
             subst hop2
-            have hlvt : LvalsOK env.get t := hlvy.1
-            have hlvf : LvalsOK env.get f := hlvy.2
             rw [specEval_tern] at h
-            rw [evalArith_tern]
-            refine step h hd (fun r1 e1 hp hd1 => IH env x r1 e1 hwx henv hlitx hlvx hp hd1) ?_
+            rw [evalWith_tern]
+            refine step h hd (fun r1 e1 hp hd1 => IH env x r1 e1 hrefl hwx hlitx hp hd1) ?_
             intro c e1 hp hc hst hf
             by_cases hc0 : c ≠ 0
             · rw [if_pos hc0] at hf ⊢
-              exact IH' e1 t r env' hst hwt hlity.1 hlvt hf hd
+              exact IH e1 t r env' hst hwt hlity.1 hf hd
             · rw [if_neg hc0] at hf ⊢
-              exact IH' e1 f r env' hst hwff hlity.2 hlvf hf hd
+              exact IH e1 f r env' hst hwff hlity.2 hf hd
         · simp only [ht, if_false] at hwf
           by_cases hl : op = .andL ∨ op = .orL
           · simp only [hl, if_true, Bool.and_eq_true] at hwf
             rw [specEval_logic _ _ _ _ _ _ hl] at h
-            rw [evalArith_logic _ _ _ _ hl]
-            refine step h hd (fun r1 e1 hp hd1 => IH env x r1 e1 hwf.1 henv hlitx hlvx hp hd1) ?_
+            rw [evalWith_logic _ _ _ _ _ hl]
+            refine step h hd (fun r1 e1 hp hd1 => IH env x r1 e1 hrefl hwf.1 hlitx hp hd1) ?_
             intro l e1 hp hlv1 hst hf
             by_cases c1 : op = .andL ∧ l = 0
             · rw [if_pos c1] at hf ⊢
@@ -750,7 +822,7 @@ theorem eval_main (D : Nat) (hD : 98 ≤ D) : ∀ (fuel : Nat) (env : Env) (e : 
                 subst a b
                 exact ⟨rfl, hst, fun w hw => by cases hw; decide⟩
               · rw [if_neg c2] at hf ⊢
-                refine step hf hd (fun r1 e2 hp2 hd1 => IH' e1 y r1 e2 hst hwf.2 hlity hlvy hp2 hd1) ?_
+                refine step hf hd (fun r1 e2 hp2 hd1 => IH e1 y r1 e2 hst hwf.2 hlity hp2 hd1) ?_
                 intro rr e2 hp2 hrr hst2 hf2
                 obtain ⟨a, b⟩ := pair_eq hf2
                 subst a b
@@ -758,35 +830,233 @@ theorem eval_main (D : Nat) (hD : 98 ≤ D) : ∀ (fuel : Nat) (env : Env) (e : 
           · simp only [hl, if_false, Bool.and_eq_true] at hwf
             obtain ⟨⟨hpl, hwx⟩, hwy⟩ := hwf
             rw [specEval_plain _ _ _ _ _ _ hpl] at h
-            rw [evalArith_plain _ _ _ _ hpl]
-            refine step h hd (fun r1 e1 hp hd1 => IH env x r1 e1 hwx henv hlitx hlvx hp hd1) ?_
+            rw [evalWith_plain _ _ _ _ _ hpl]
+            refine step h hd (fun r1 e1 hp hd1 => IH env x r1 e1 hrefl hwx hlitx hp hd1) ?_
             intro l e1 hp hl1 hst hf
-            refine step hf hd (fun r1 e2 hp2 hd1 => IH' e1 y r1 e2 hst hwy hlity hlvy hp2 hd1) ?_
+            refine step hf hd (fun r1 e2 hp2 hd1 => IH e1 y r1 e2 hst hwy hlity hp2 hd1) ?_
             intro rr e2 hp2 hrr hst2 hf2
-            exact good_binArit hpl hl1 hrr hst2 hf2 hd
+            exact good_binArit hpl hl1 hrr hst2 hf2 (good_inDomain hd)
+
+/-! ### a larger nesting budget does not change a result that did not hit the limit -/
+
+theorem andThen_mono {p p' : Res × Env} {f f' : Int → Env → Res × Env} {r : Res} {env' : Env}
+    (h : andThen p f = (r, env')) (hd : r.good)
+    (hp : ∀ r1 e1, p = (r1, e1) → r1.good → p' = (r1, e1))
+    (hf : ∀ v e1, p = (.ok v, e1) → f v e1 = (r, env') → f' v e1 = (r, env')) :
+    andThen p' f' = (r, env') := by
+  obtain ⟨r1, e1⟩ := p
+  cases r1 with
+  | ok v =>
+    rw [hp (.ok v) e1 rfl trivial, andThen_ok]
+    exact hf v e1 rfl (by simpa using h)
+  | err er =>
+    simp only [andThen_err] at h
+    obtain ⟨a, b⟩ := pair_eq h
+    subst a b
+    rw [hp (.err er) e1 rfl hd, andThen_err]
+  | panic =>
+    simp only [andThen_panic] at h
+    obtain ⟨a, b⟩ := pair_eq h
+    subst a b
+    rw [hp .panic e1 rfl hd, andThen_panic]
+
+theorem specEval_depth_mono : ∀ (fuel D D' : Nat) (env : Env) (e : Expr) (r : Res) (env' : Env),
+    D ≤ D' → specEval fuel D env e = (r, env') → r.good → specEval fuel D' env e = (r, env')
+  | 0, D, D', env, e, r, env', _, h, hd => by
+    rw [specEval_zero] at h; cases h; exact absurd hd (by simp [Res.good])
+  | fuel + 1, D, D', env, e, r, env', hDD, h, hd => by
+    have IH := fun env1 x r1 e2 => specEval_depth_mono fuel D D' env1 x r1 e2 hDD
+    cases e with
+    | word w =>
+      rw [specEval_word] at h ⊢
+      split at h
+      · rename_i hv
+        rw [if_pos hv]
+        split at h
+        · rename_i he; rw [if_pos he]; exact h
+        · rename_i he
+          rw [if_neg he]
+          cases hp : parseText (env.get w) with
+          | none => rw [hp] at h; exact h
+          | some oe =>
+            rw [hp] at h
+            cases oe with
+            | none => exact h
+            | some e' =>
+              simp only [] at h ⊢
+              cases D with
+              | zero =>
+                obtain ⟨a, _⟩ := pair_eq h; subst a; exact absurd hd (by simp [Res.good])
+              | succ D1 =>
+                obtain ⟨D2, rfl⟩ : ∃ D2, D' = D2 + 1 := ⟨D' - 1, by omega⟩
+                simp only [] at h ⊢
+                exact specEval_depth_mono fuel D1 D2 env e' r env' (by omega) h hd
+      · rename_i hv
+        rw [if_neg hv]
+        exact h
+    | paren x =>
+      rw [specEval_paren] at h ⊢
+      exact IH env x r env' h hd
+    | unary op post x =>
+      rw [specEval] at h ⊢
+      by_cases hinc : op = .inc ∨ op = .dec
+      · simp only [hinc, if_true] at h ⊢
+        cases hw : wordOf x with
+        | none => rw [hw] at h; exact h
+        | some n =>
+          rw [hw] at h
+          simp only [] at h ⊢
+          split at h
+          · rename_i hv
+            rw [if_pos hv]
+            exact andThen_mono h hd (fun r1 e1 hp hd1 => IH env (.word n) r1 e1 hp hd1)
+              (fun v e1 _ hf => hf)
+          · rename_i hv
+            rw [if_neg hv]
+            exact h
+      · simp only [hinc, if_false] at h ⊢
+        split at h
+        · rename_i hp; rw [if_pos hp]; exact h
+        · rename_i hp
+          rw [if_neg hp]
+          exact andThen_mono h hd (fun r1 e1 hp1 hd1 => IH env x r1 e1 hp1 hd1) (fun v e1 _ hf => hf)
+    | binary op x y =>
+      rw [specEval] at h ⊢
+      by_cases hass : isAssign op = true
+      · simp only [hass, if_true] at h ⊢
+        cases hw : wordOf x with
+        | none => rw [hw] at h; exact h
+        | some n =>
+          rw [hw] at h
+          simp only [] at h ⊢
+          by_cases hv : validName n = true
+          · simp only [hv, if_true] at h ⊢
+            cases hop : assignOp op with
+            | none =>
+              rw [hop] at h
+              simp only [] at h ⊢
+              by_cases ha : op = .assgn
+              · simp only [ha, if_true] at h ⊢
+                exact andThen_mono h hd (fun r1 e1 hp hd1 => IH env y r1 e1 hp hd1)
+                  (fun v e1 _ hf => hf)
+              · simp only [ha, if_false] at h ⊢
+                exact h
+            | some aop =>
+              rw [hop] at h
+              simp only [] at h ⊢
+              refine andThen_mono h hd (fun r1 e1 hp hd1 => IH env (.word n) r1 e1 hp hd1) ?_
+              intro cur e1 _ hf
+              exact andThen_mono hf hd (fun r1 e2 hp hd1 => IH e1 y r1 e2 hp hd1)
+                (fun v e2 _ hf2 => hf2)
+          · simp only [hv, Bool.false_eq_true, if_false] at h ⊢
+            exact h
+      · simp only [hass, Bool.false_eq_true, if_false] at h ⊢
+        by_cases ht : op = .ternQuest
+        · simp only [ht, if_true] at h ⊢
+          cases hc : colonParts y with
+          | none => rw [hc] at h; exact h
+          | some tf =>
+            obtain ⟨t, f⟩ := tf
+            rw [hc] at h
+            simp only [] at h ⊢
+            refine andThen_mono h hd (fun r1 e1 hp hd1 => IH env x r1 e1 hp hd1) ?_
+            intro c e1 _ hf
+            by_cases hc0 : c ≠ 0
+            · rw [if_pos hc0] at hf ⊢; exact IH e1 t r env' hf hd
+            · rw [if_neg hc0] at hf ⊢; exact IH e1 f r env' hf hd
+        · simp only [ht, if_false] at h ⊢
+          by_cases hl : op = .andL ∨ op = .orL
+          · simp only [hl, if_true] at h ⊢
+            refine andThen_mono h hd (fun r1 e1 hp hd1 => IH env x r1 e1 hp hd1) ?_
+            intro l e1 _ hf
+            by_cases c1 : op = .andL ∧ l = 0
+            · rw [if_pos c1] at hf ⊢; exact hf
+            · rw [if_neg c1] at hf ⊢
+              by_cases c2 : op = .orL ∧ l ≠ 0
+              · rw [if_pos c2] at hf ⊢; exact hf
+              · rw [if_neg c2] at hf ⊢
+                exact andThen_mono hf hd (fun r1 e2 hp hd1 => IH e1 y r1 e2 hp hd1)
+                  (fun v e2 _ hf2 => hf2)
+          · simp only [hl, if_false] at h ⊢
+            refine andThen_mono h hd (fun r1 e1 hp hd1 => IH env x r1 e1 hp hd1) ?_
+            intro l e1 _ hf
+            exact andThen_mono hf hd (fun r1 e2 hp hd1 => IH e1 y r1 e2 hp hd1)
+              (fun v e2 _ hf2 => hf2)
+
+/-! ### corollaries -/
+
+/-- nesting budget under which the code and bash cannot differ by their different limits -/
+def codeDepth : Nat := 99
 
 theorem eval_eq_spec_core (fuel : Nat) (env : Env) (e : Expr) (r : Res) (env' : Env)
-    (hwf : WF e = true) (henv : EnvOK env) (hlit : LitsOK e) (hlv : LvalsOK env.get e)
-    (h : specEval fuel bashMaxDepth env e = (r, env')) (hd : r.inDomain) :
-    evalArith env e = (r, env') :=
-  (eval_main bashMaxDepth (by decide) fuel env e r env' hwf henv hlit hlv h hd).1
-
-/-- On the same domain every value fits int64 (no wrap-around is ever observed). -/
-theorem eval_inI64_core (fuel : Nat) (env : Env) (e : Expr) (v : Int) (env' : Env)
-    (hwf : WF e = true) (henv : EnvOK env) (hlit : LitsOK e) (hlv : LvalsOK env.get e)
-    (h : specEval fuel bashMaxDepth env e = (.ok v, env')) : inI64 v = true :=
-  (eval_main bashMaxDepth (by decide) fuel env e _ env' hwf henv hlit hlv h trivial).2.2 v rfl
+    (hwf : WF e = true) (henv : EnvOK env) (hlit : LitsOK e)
+    (h : specEval fuel codeDepth env e = (r, env')) (hd : r.good) :
+    evalArith env e = (r, env') ∧ specEval fuel bashMaxDepth env e = (r, env') ∧ EnvOK env' ∧
+      (∀ v, r = .ok v → inI64 v = true) := by
+  obtain ⟨a, b, c⟩ := (eval_main fuel).1 maxNameRefDepth codeDepth env e r env' (by decide) (by decide)
+    hwf henv hlit h hd
+  exact ⟨a, specEval_depth_mono fuel codeDepth bashMaxDepth env e r env' (by decide) h hd,
+    EnvOK_stable henv b, c⟩
 
 theorem status_arithCmd_eq_spec_core (fuel : Nat) (env : Env) (e : Expr)
-    (hwf : WF e = true) (henv : EnvOK env) (hlit : LitsOK e) (hlv : LvalsOK env.get e)
-    (hd : (specEval fuel bashMaxDepth env e).1.inDomain) :
+    (hwf : WF e = true) (henv : EnvOK env) (hlit : LitsOK e)
+    (hd : (specEval fuel codeDepth env e).1.good) :
     arithCmdStatus env e = specArithCmdStatus fuel env e := by
-  obtain ⟨r, env', hs⟩ : ∃ r env', specEval fuel bashMaxDepth env e = (r, env') := ⟨_, _, rfl⟩
+  obtain ⟨r, env', hs⟩ : ∃ r env', specEval fuel codeDepth env e = (r, env') := ⟨_, _, rfl⟩
   rw [hs] at hd
-  have hm := eval_eq_spec_core fuel env e r env' hwf henv hlit hlv hs hd
+  obtain ⟨hm, hb, _, _⟩ := eval_eq_spec_core fuel env e r env' hwf henv hlit hs hd
   unfold arithCmdStatus runnerArithm specArithCmdStatus
-  rw [hm, hs]
+  rw [hm, hb]
   cases r <;> rfl
+
+theorem status_expansion_eq_spec_core (fuel : Nat) (env : Env) (e : Expr)
+    (hwf : WF e = true) (henv : EnvOK env) (hlit : LitsOK e)
+    (hd : (specEval fuel codeDepth env e).1.good)
+    (herr : (∃ v, (specEval fuel codeDepth env e).1 = .ok v) ∨
+      (specEval fuel codeDepth env e).1 = .err .divZero ∨
+      (specEval fuel codeDepth env e).1 = .err .negExp) :
+    expansionStatus env e = specExpansionStatus fuel env e := by
+  obtain ⟨r, env', hs⟩ : ∃ r env', specEval fuel codeDepth env e = (r, env') := ⟨_, _, rfl⟩
+  rw [hs] at hd herr
+  obtain ⟨hm, hb, _, _⟩ := eval_eq_spec_core fuel env e r env' hwf henv hlit hs hd
+  unfold expansionStatus specExpansionStatus
+  rw [hm, hb]
+  rcases herr with ⟨v, hv⟩ | hv | hv <;> simp only at hv <;> subst hv <;> rfl
+
+/-- the arguments of a `let`, each in the environment the previous ones leave, stay inside the domain -/
+def LetDomain (fuel : Nat) : Env → List Expr → Prop
+  | _, [] => True
+  | env, e :: rest =>
+    WF e = true ∧ LitsOK e ∧ (specEval fuel codeDepth env e).1.good ∧
+      (∀ v, (specEval fuel codeDepth env e).1 = .ok v →
+        LetDomain fuel (specEval fuel codeDepth env e).2 rest)
+
+theorem letLoop_eq_spec (fuel : Nat) : ∀ (es : List Expr) (env : Env) (val : Int), EnvOK env →
+    LetDomain fuel env es →
+    letLoop env val es = (((specLetLoop fuel env val es).1).getD 0, (specLetLoop fuel env val es).2)
+  | [], env, val, _, _ => rfl
+  | e :: rest, env, val, henv, hdom => by
+    obtain ⟨hwf, hlit, hd, hnext⟩ := hdom
+    obtain ⟨r, env', hs⟩ : ∃ r env', specEval fuel codeDepth env e = (r, env') := ⟨_, _, rfl⟩
+    rw [hs] at hd hnext
+    obtain ⟨hm, hb, henv', _⟩ := eval_eq_spec_core fuel env e r env' hwf henv hlit hs hd
+    rw [letLoop, specLetLoop]
+    unfold runnerArithm
+    rw [hm, hb]
+    cases r with
+    | ok v =>
+      simp only []
+      exact letLoop_eq_spec fuel rest env' v henv' (hnext v rfl)
+    | err er => rfl
+    | panic => rfl
+
+theorem status_let_eq_spec_core (fuel : Nat) (env : Env) (es : List Expr) (henv : EnvOK env)
+    (hdom : LetDomain fuel env es) : letStatus env es = specLetStatus fuel env es := by
+  unfold letStatus specLetStatus
+  rw [letLoop_eq_spec fuel es env 0 henv hdom]
+  cases h : specLetLoop fuel env 0 es with
+  | mk o env2 =>
+    cases o <;> rfl
 
 /-- `x=x`: the specification runs into bash's recursion limit whatever the fuel. -/
 theorem cycle_recursion_gen (env : Env) (hx : env.get [120] = [120]) : ∀ (D fuel : Nat), D < fuel →
@@ -801,3 +1071,4 @@ theorem cycle_recursion_gen (env : Env) (hx : env.get [120] = [120]) : ∀ (D fu
     exact cycle_recursion_gen env hx D fuel (by omega)
 
 end ShVerif.C20
+
